@@ -155,9 +155,13 @@ def run_unit(ctx, u):
         for form in ("list", "int64", "int32", "float32", "float64"):
             for trial in range(20):
                 hi = 2**20 if form not in ("float32",) else 2**16
+                if trial >= 14 and form in ("list", "int64", "float64"):
+                    hi = 2**50  # exactly representable in float64, beyond 32-bit integers
                 ns = [rng.randrange(hi) for _ in range(rng.randint(1, 50))]
                 if trial == 0:
                     ns = list(range(0, 40))
+                if trial == 19 and form in ("list", "int64", "float64"):
+                    ns = [2**31 - 1, 2**31, 2**31 + 1, 2**32, 2**40 + 5]
                 arg = ns if form == "list" else torch.tensor(ns, dtype=getattr(torch, form))
                 ctx.case("arr", form, tuple(ns))
                 try:
